@@ -167,7 +167,7 @@ def r1(ctx):
             fwd.append(bi)
     if not (ip_calls and fp_calls and dec and fwd):
         raise AnchorError("handle_inbound: pipeline stages not found")
-    exempt = []
+    exempt, not_exempt = [], []
     for bi, t, e in g.switches():
         inner, neg = e, False
         while inner[0] == "un" and inner[1] == "Not":
@@ -176,6 +176,13 @@ def r1(ctx):
         if mt is not None and "expected_responses" in fmt_short(mt[0]):
             f, tr = g.bool_edges(bi)
             exempt.append((bi, f if (neg != mt[2]) else tr))
+            not_exempt.append((bi, tr if (neg != mt[2]) else f))
+    # a datagram from an address this node is waiting on is not subjected to the filter at all: the filter stages have side effects (they use up
+    # the sender's and the total quota and ban on excess), so they run only on the not-expected edge
+    r_ne = hi.reachable(0, removed_edges=not_exempt)
+    rule.check(bool(not_exempt) and not any(bi in r_ne for bi, _ in ip_calls + fp_calls), "handle_inbound: the filter stages run only for sources no response is expected from",
+               "inbound|filter-for-expected", "handle_inbound evaluates initial_pass / final_pass for a source a response is expected from: solicited responses use up the "
+               "quotas meant for unsolicited datagrams, and a peer that only answers this node's requests can be banned", loc=hi.loc(hi.line))
     ip_pass = bool_pass_edges(g, lambda e: e[0] == "call" and e[1] == F + "initial_pass")
     fp_pass = bool_pass_edges(g, lambda e: e[0] == "call" and e[1] == F + "final_pass")
     r = hi.reachable(0, removed_edges=exempt + ip_pass)
